@@ -209,6 +209,27 @@ CLAIMED = {
              "(batching, skipping a request cancelled before sending).",
         technique="TLA+ spec SendLoop + TLC exhaustive model check; TLC batched trace validation of real-code runs",
         design_ref="5/C12"),
+
+    "C01": dict(
+        category="model_checking",
+        text="Dsl.tla gives the denotation of integer DSL expressions as executable definitions: the SET of "
+             "admissible exact values (wide two's-complement words sized so that no intermediate can "
+             "overflow; two values where signed // or % may round either way), the narrowest width involved "
+             "and the property's precondition. Statements `dst = <expression>` are built with the real "
+             "classes (all depth-1 trees over 17 operand kinds: 8 variable formats, locals, the r/sr/w/sw "
+             "register views, constants from the full 64-bit range; 10 operators, unary minus and abs; "
+             "rotating destinations incl. registers and locals; fixed-seed random trees of depth 2-3), the "
+             "emitted bytecode is executed by TLC on the eBPF machine from several input vectors (small, "
+             "negative, boundary, random), and the destination's final bytes must be an admissible value "
+             "reduced to the destination whenever the precondition holds.",
+        note="Bounded depth and sampled inputs, not all programs. The precondition is read conservatively: a "
+             "case outside it is skipped, never judged (about 17% of runs). Two recorded known findings "
+             "(signed // % emitted unsigned; sw register not sign-extended for an 8-byte destination) are "
+             "matched by predicates the spec evaluates on the case's own inputs; a statement that has one of "
+             "them AND another defect is attributed to the known finding.",
+        technique="TLA+ denotation Dsl + TLC executing the real emitted bytecode on the eBPF machine Ebpf.tla; "
+                  "per-case verdicts",
+        design_ref="5/C01"),
 }
 NOT_YET = "not yet built in this round (planned in DESIGN.md section 5)"
 NOT_APPLICABLE = {}
